@@ -46,6 +46,10 @@ def sources(tier, seed, ctx):
             reps = ['TruthTable', 'PyFunction', 'Circuit'] if tier != 'quick' or (n, m) != (2, 2) or k % 2 == 0 else [['TruthTable', 'PyFunction', 'Circuit'][k % 3]]
             for rep in reps:
                 srcs.append({'k': 'fn', 'n': n, 'm': m, 'tt': f, 'rep': rep, 'positional': (k % 2 == 0)})
+    # python callables that return (a view of) the very list they were given: identity and projections
+    for n in (1, 2, 3):
+        srcs.append({'k': 'fn', 'n': n, 'm': n, 'tt': [sorted(r for r in range(2 ** n) if (r >> (n - 1 - j)) & 1) for j in range(n)], 'rep': 'PyFunction', 'alias': 'identity'})
+        srcs.append({'k': 'fn', 'n': n, 'm': n, 'tt': [sorted(r for r in range(2 ** n) if (r >> (n - 1 - j)) & 1) for j in reversed(range(n))], 'rep': 'PyFunction', 'alias': 'reversed-in-place'})
     ctx['exhaustive'] = False
     nsamp = 150 if tier == 'quick' else 2500
     for j in range(nsamp):
@@ -140,6 +144,14 @@ def _make(src):
 
     n, m, tt = src['n'], src['m'], src['tt']
     table = _table(n, m, tt)
+    if src.get('alias') == 'identity':
+        return PyFunction(func=lambda args: args, input_size=n)
+    if src.get('alias') == 'reversed-in-place':
+        def rev(args):
+            out = list(args)
+            out.reverse()
+            return out
+        return PyFunction(func=rev, input_size=n)
     if src['rep'] == 'TruthTable':
         return TruthTable(table)
     if src['rep'] == 'Circuit':
